@@ -91,10 +91,10 @@ func rtVaryKey(i int) caching.Key {
 	return caching.KeysFromRequest(r)[0]
 }
 
-func rtFillVary(s caching.Storage, i int, size int64) (bool, error) {
-	if f, _, _, err := s.Get(context.Background(), []caching.Key{rtVaryKey(i)}); err == nil && f != nil {
-		f.Close()
-		return false, nil // the entry is on disk
+func rtFillVary(s caching.Storage, root string, i int, size int64) (bool, error) {
+	// (looked up on the file system: a Get would count as a hit)
+	if _, err := os.Stat(filepath.Join(root, rtVaryKey(i).FsName())); err == nil {
+		return false, nil // the entry is on disk: the server would have served it
 	}
 	w := s.GetWriter(rtKey(i), false, nil)
 	if w == nil {
@@ -241,7 +241,7 @@ func (c *limRtCase) Run() (sx.V, error) {
 				gone = append(gone, n)
 			}
 		}
-		if op.Kind != "" {
+		if op.Kind != "" && op.Kind != "quiet-pass" {
 			c.trace.Ops = append(c.trace.Ops, op)
 			mid := map[string]int64{}
 			for n, v := range now {
@@ -252,7 +252,7 @@ func (c *limRtCase) Run() (sx.V, error) {
 			}
 			outs = append(outs, rtObs(nil, mid))
 		}
-		if len(gone) > 0 || op.Kind == "" {
+		if len(gone) > 0 || op.Kind == "quiet-pass" {
 			c.trace.Ops = append(c.trace.Ops, LimOp{Kind: "tick"})
 			outs = append(outs, rtObs(gone, now))
 		}
@@ -264,7 +264,7 @@ func (c *limRtCase) Run() (sx.V, error) {
 			var ok bool
 			var err error
 			if st.I >= varyBase && st.I < preIndex {
-				ok, err = rtFillVary(s, st.I, st.Size)
+				ok, err = rtFillVary(s, dir, st.I, st.Size)
 			} else {
 				ok, err = rtFill(s, st.I, st.Size)
 			}
@@ -275,6 +275,8 @@ func (c *limRtCase) Run() (sx.V, error) {
 			time.Sleep(1100 * time.Millisecond)
 			if ok {
 				observe(LimOp{Kind: "add", Name: rtKeyOf(st.I).FsName(), Size: st.Size, T: t}, rtKeyOf(st.I).FsName())
+			} else {
+				observe(LimOp{}, "") // nothing was done, but a pass of the limiter during the wait is recorded where it happened
 			}
 		case "hit":
 			ok := rtHit(s, st.I)
@@ -283,6 +285,8 @@ func (c *limRtCase) Run() (sx.V, error) {
 			if ok {
 				name := rtKeyOf(st.I).FsName()
 				observe(LimOp{Kind: "access", Name: name, Size: prev[name], T: t}, "")
+			} else {
+				observe(LimOp{}, "")
 			}
 		case "quiet":
 			// the limiter runs when an operation arrives 5 s or more after its last pass; the flusher
@@ -291,7 +295,7 @@ func (c *limRtCase) Run() (sx.V, error) {
 			for k := 0; k < 40 && total(dirMap(dir)) > p.Max; k++ {
 				time.Sleep(500 * time.Millisecond)
 			}
-			observe(LimOp{}, "")
+			observe(LimOp{Kind: "quiet-pass"}, "")
 		case "restart":
 			time.Sleep(4200 * time.Millisecond) // every access so far is flushed (ATIME_FLUSH_INTERVAL=3)
 			observe(LimOp{Kind: "flush"}, "")
